@@ -697,3 +697,48 @@ def check_value_validators(ctx, rep, rule=RULE + '.sortcheck'):
             else:
                 rep.holds(rule, m, 'def ' + m.name, 'the getter {} of a {}-valued keyword never reaches the validator of the other sort'.format(nm, kind), nontrivial=False)
     return n
+
+
+def check_tm_default_alphabet(ctx, rep, rule=RULE + '.default'):
+    """an omitted input alphabet of a Turing machine is the TAPE alphabet without the blank -- the same collection that
+    becomes Gamma (declared, or derived from the transitions when not declared), not some other collection"""
+    cls = [c for c in ctx.prog.classes.values() if c.name == 'TMBuilder']
+    if not cls or 'build' not in cls[0].methods:
+        raise AnalysisError('TMBuilder.build vanished')
+    build = cls[0].methods['build']
+    ctor = [c for c in ctx.prog.calls_in(build) if ctx.callee_name(build, c) == 'TM']
+    if len(ctor) != 1 or len(ctor[0].args) < 3:
+        rep.undecided(rule, build, 'def build', 'TM constructor call not found')
+        return 0
+
+    def source_name(arg):
+        e = resolve_alias(build, arg) if isinstance(arg, ast.Name) else arg
+        if isinstance(e, ast.Call) and e.args:
+            e = e.args[0]
+        if isinstance(e, (ast.GeneratorExp, ast.SetComp, ast.ListComp)) and isinstance(e.generators[0].iter, ast.Name):
+            return e.generators[0].iter.id
+        return None
+    from .models import resolve_alias
+    sig_src, gam_src = source_name(ctor[0].args[1]), source_name(ctor[0].args[2])
+    if not sig_src or not gam_src:
+        rep.undecided(rule, build, ctor[0], 'sources of Sigma / Gamma not recognised')
+        return 0
+    fx = ctx.facts(build)
+    defaults = []
+    for st in walk_no_nested(build.node):
+        if isinstance(st, ast.Assign) and len(st.targets) == 1 and isinstance(st.targets[0], ast.Name) and st.targets[0].id == sig_src:
+            atoms = fx.guard_atoms(fx.cfg.n_of(st))
+            if any(a[0] == 'eq' and a[3] is True and a[1] == sig_src and a[2] == 'None' for a in atoms):
+                defaults.append(st)
+    if not defaults:
+        rep.undecided(rule, build, 'def build', 'no default for an omitted input alphabet found')
+        return 0
+    st = defaults[0]
+    used = set(names_in(st.value))
+    if gam_src in used and isinstance(st.value, ast.BinOp) and isinstance(st.value.op, ast.Sub):
+        rep.holds(rule, build, st, 'the omitted input alphabet is {} (the collection that becomes Gamma) minus the blank'.format(gam_src))
+    elif gam_src not in used:
+        rep.violates(rule, build, st, 'the omitted input alphabet is derived from {} instead of {}, the collection that becomes Gamma: declared tape symbols that no transition mentions are missing from Sigma'.format(', '.join(sorted(used - {"blank"})) or u(st.value), gam_src))
+    else:
+        rep.undecided(rule, build, st, 'default {} not of the form Gamma-source minus blank'.format(u(st.value)))
+    return 1
